@@ -3,12 +3,59 @@ The rewritten text is regenerated from /repo's current source on every run and k
 import re
 
 
+def expand_teams(lines, log):
+    """#pragma omp parallel [if(c)] whose block is NOT a single construct: every thread of the team executes the block.
+    Modelled with a team of one or two threads (team size is the implementation's choice: 1 without nested parallelism);
+    the second member runs a textual copy of the block in its own CBMC thread with its own task frame, and the region
+    ends with the implicit barrier."""
+    out = []
+    i = 0
+    team = 0
+    while i < len(lines):
+        st = lines[i].strip()
+        m = re.match(r"#pragma\s+omp\s+parallel\b(?!\s+for)(.*)$", st)
+        if m:
+            j = i + 1
+            single = False
+            while j < len(lines) and (lines[j].strip().startswith("#") or not lines[j].strip()):
+                if re.match(r"#pragma\s+omp\s+single\b", lines[j].strip()):
+                    single = True
+                j += 1
+            if not single and j < len(lines) and lines[j].strip().startswith("{"):
+                mc = re.search(r"\bif\s*\((.*)\)\s*$", m.group(1))
+                cond = mc.group(1) if mc else "1"
+                depth = 0
+                e = j
+                while e < len(lines):
+                    if not lines[e].strip().startswith("#"):
+                        depth += lines[e].count("{") - lines[e].count("}")
+                        if depth == 0:
+                            break
+                    e += 1
+                block = lines[j:e + 1]
+                team += 1
+                log.append("team region %d (if %s): block of %d lines executed by every member of a team of 1 or 2" % (team, cond, len(block)))
+                out.append("/* vk: " + st + " (team region: executed by every member) */")
+                out.extend(lines[i + 1:j])
+                out.append("{ int vk_team2_%d = (%s) && nondet_vk_team(); /* barrier flag is a global: CBMC threads get copies of locals */" % (team, cond))
+                out.append("if (vk_team2_%d) { __CPROVER_ASYNC_9%d: { VK_FRAME();" % (team, team))
+                out.extend(block)
+                out.append("__CPROVER_atomic_begin(); vk_team_done[%d] = 1; __CPROVER_atomic_end(); } }" % team)
+                out.extend(block)
+                out.append("if (vk_team2_%d) __CPROVER_assume(vk_team_done[%d]); /* implicit barrier */ }" % (team, team))
+                i = e + 1
+                continue
+        out.append(lines[i])
+        i += 1
+    return out
+
+
 def rewrite(src_text, frame_functions):
-    lines = src_text.split("\n")
+    log = []
+    lines = expand_teams(src_text.split("\n"), log)
     out = []
     k = 0
     i = 0
-    log = []
     while i < len(lines):
         ln = lines[i]
         st = ln.strip()
@@ -51,6 +98,12 @@ def rewrite(src_text, frame_functions):
             log.append("taskwait")
             i += 1
             continue
+        if re.match(r"#pragma\s+omp\b", st):
+            # never ignore a construct silently: the check reports that it cannot decide this source
+            out.append('__CPROVER_assert(0, "model limit: OpenMP construct not modelled by vk/omp.py: %s");' % st.replace('"', "'"))
+            log.append("NOT MODELLED: " + st)
+            i += 1
+            continue
         out.append(ln)
         i += 1
     text = "\n".join(out)
@@ -64,4 +117,4 @@ def rewrite(src_text, frame_functions):
         pat = re.compile(r"(^[A-Za-z_][\w\s\*]*\b%s\s*\([^;{]*\)\s*\{)" % re.escape(fn), re.M)
         text, n = pat.subn(r"\1\n        VK_FRAME();", text, count=1)
         log.append("frame inserted in %s: %d" % (fn, n))
-    return '#include "vk_omp.h"\nstruct aln_mem; struct aln_mem *vk_alloc_aln_mem_ret(int x);\n' + text, log
+    return '#include "vk_omp.h"\nint nondet_vk_team(void);\nint vk_team_done[8];\nstruct aln_mem; struct aln_mem *vk_alloc_aln_mem_ret(int x);\n' + text, log
